@@ -58,6 +58,20 @@ def _break_protection_disabled():
     pp.get_assertion_protected_variables = lambda test_case: set()
 
 
+def _break_dependencies_one_level():
+    """Backward dependencies of asserted variables are followed for one pass over the statements only (no fixpoint): in a chain
+    a -> b -> c -> asserted only c (and whatever happens to come later in statement order) is protected."""
+    import pynguin.ga.postprocess as pp
+
+    def _add_backward_dependencies(test_case, protected):
+        for statement in test_case.statements():
+            bv = statement.bound_variable
+            if bv is not None and bv in protected:
+                protected.update(statement.used_variables())
+
+    pp._add_backward_dependencies = _add_backward_dependencies
+
+
 def _break_statement_rewritten():
     """The iterative minimisers 'simplify' a literal: after minimising, the first unasserted statement that is left is replaced
     by a statement that was not part of the original test."""
@@ -304,6 +318,7 @@ BREAKS = {
     "wrong-direction": _break_wrong_direction,
     "loose-tolerance": _break_loose_tolerance,
     "protection-disabled": _break_protection_disabled,
+    "dependencies-one-level": _break_dependencies_one_level,
     "statement-rewritten": _break_statement_rewritten,
 }
 
@@ -353,6 +368,32 @@ def asserted_bindings(stmts):
             out[v] = {"code": s["code"], "tag": "bare"}
         elif v in roots:
             out[v] = {"code": s["code"], "tag": "dotted"}
+    return out
+
+
+def chain_info(stmts):
+    """For every asserted binding: length of the longest backward dependency chain ending in it (the statement itself counts)
+    and the statement index of the root of that chain."""
+    pos = {s["bound"]: i for i, s in enumerate(stmts) if s["bound"] is not None}
+    memo: dict = {}
+
+    def depth(v):
+        if v in memo:
+            return memo[v]
+        memo[v] = (1, pos[v])  # guards against cycles (cannot happen in straight-line code)
+        best = (1, pos[v])
+        for u in stmts[pos[v]]["uses"]:
+            if u in pos and pos[u] < pos[v]:
+                d, root = depth(u)
+                if d + 1 > best[0]:
+                    best = (d + 1, root)
+        memo[v] = best
+        return best
+
+    out = {}
+    for v in asserted_bindings(stmts):
+        d, root = depth(v)
+        out[v] = {"len": d, "root_index": root, "unasserted_intermediates": None}
     return out
 
 
@@ -536,6 +577,7 @@ def install(events, spec):
                 out[name] = g.compute_coverage(twin)
                 res = [c.get_last_execution_result() for c in twin.test_case_chromosomes]
                 out[name + ":timeouts"] = sum(1 for r in res if r is not None and r.timeout)
+                out["name_errors"] = sum(1 for r in res if r is not None for e_ in r.exceptions.values() if isinstance(e_, NameError))
             except BaseException as e:  # noqa: BLE001
                 out[name] = f"raised {type(e).__name__}: {e}"
         return out
@@ -566,6 +608,29 @@ def install(events, spec):
             S["tracked"][id(t)] = {"tc": t, "index": i, "asserted": asserted, "alive": set(asserted)}
         ev["before"] = before
         ev["cov_before"] = fresh_coverages(generation_result, algorithm)
+        # long chains ending in an asserted variable: is the whole chain coverage-redundant (coverage of the suite recomputed from
+        # scratch stays equal when the root of the chain is removed together with everything that depends on it)?
+        chains = []
+        try:
+            budget = 10
+            for i, ch in enumerate(generation_result.test_case_chromosomes):
+                for v, info in chain_info(before[i]).items():
+                    if info["len"] < 3:
+                        continue
+                    rec = {"test": i, "leaf": v, "len": info["len"], "redundant": None}
+                    if budget > 0 and algorithm is not None:
+                        budget -= 1
+                        twin = generation_result.clone()
+                        twin.get_test_case_chromosome(i).test_case.remove_statement_with_forward_dependencies(info["root_index"])
+                        cov = fresh_coverages(twin, algorithm)
+                        keys = [k for k in ev["cov_before"] if not k.endswith(":timeouts")]
+                        rec["redundant"] = bool(keys) and all(
+                            isinstance(cov.get(k), (int, float)) and isinstance(ev["cov_before"][k], (int, float))
+                            and abs(cov[k] - ev["cov_before"][k]) < 1e-12 for k in keys)
+                    chains.append(rec)
+        except BaseException as e:  # noqa: BLE001
+            ev["chains_error"] = f"{type(e).__name__}: {e}"
+        ev["chains"] = chains
         S["losses"], S["stack"], S["suite"], S["active"] = [], [], generation_result, True
         S["post_check"] = None
         try:
